@@ -2488,6 +2488,13 @@ impl TieredEngine {
             loop {
                 tokio::select! {
                     _ = ticker.tick() => {
+                        // Periodic policy: appends only sync when the next append comes late enough,
+                        // so the last writes before an idle period are synced from here.
+                        if matches!(self.config.fsync_policy, FsyncPolicy::Periodic(_)) {
+                            if let Err(e) = self.cold_tier.sync_wal() {
+                                error!(error = %e, "Periodic WAL sync failed");
+                            }
+                        }
                         self.audit_hot_tier_coherence_if_due("background hot-tier coherence audit");
                         if self.hot_tier.needs_flush() {
                             match self.flush_hot_tier(false) {
